@@ -142,6 +142,8 @@ class Recorder:
         targets = self.cfg["targets"]
         allow_nsn = self.depth < self.maxdepth
         menu = ["none", "done"] + [("next_state", t) for t in targets]
+        if self.cfg.get("done_then_next"):
+            menu += [("done_next", t) for t in targets[:2]]
         if allow_nsn:
             menu += [("nsn", t) for t in targets]
             if self.cfg.get("double_nsn") and len(targets) >= 2:
@@ -157,6 +159,12 @@ class Recorder:
             return
         if a[0] == "next_state":
             call.action, call.target = "next_state", a[1]
+            sm.next_state(a[1])
+            return
+        if a[0] == "done_next":
+            # done() and then (a forgotten return) a transition request in the same invocation
+            call.action, call.target = "done", a[1]
+            sm.done()
             sm.next_state(a[1])
             return
         if a[0] == "nsn":
@@ -405,7 +413,8 @@ def run_asm_history(c, job):
             op = "on_enable"
         else:
             running = enabled and H.iters[-2].asm_running
-            menu = ["on_iteration", "on_disable"] + ([] if running else ["on_enable"])
+            can_enable = (not running) if not cfg.get("enable_only_after_disable") else (not enabled)
+            menu = ["on_iteration", "on_disable"] + (["on_enable"] if can_enable else [])
             op = menu[c.choose(f"op{i}", len(menu))]
         it.asm_op = op
         it.asm_fresh = False
